@@ -49,8 +49,10 @@ Fixpoint ptr_loop (n : nat) (i : Z) (base : Z) (ptr : bytes) (ip : bytes) : opti
         | None => None
         | Some v =>
           let ii := if base =? 16 then i / 2 else i in
-          let b := if (base =? 16) && (Z.odd i)
-                   then Z.lor v ((nth (Z.to_nat ii) ip 0 * 16) mod 256) else v in
+          (* ip6: the first nibble of a byte is its high half (after the repair F26: a name cut after an odd
+             number of nibbles denotes the right prefix) *)
+          let b := if base =? 16
+                   then (if Z.odd i then Z.lor v (nth (Z.to_nat ii) ip 0) else (v * 16) mod 256) else v in
           ptr_loop n' (i + 1) base (match pre with Some p => p | None => [] end)
                    (set_nth (Z.to_nat ii) b ip)
         end
